@@ -114,7 +114,11 @@ func cmdFunc(args []string) int {
 		if *key != "" && fs.Key != *key {
 			continue
 		}
-		if !strings.HasSuffix(fs.PkgPath, strings.TrimSuffix(strings.TrimPrefix(*pkg, "."), "/...")) {
+		if suf := strings.TrimSuffix(strings.TrimPrefix(*pkg, "."), "/..."); suf == "" {
+			if fs.PkgPath != prog.module {
+				continue
+			}
+		} else if !strings.HasSuffix(fs.PkgPath, suf) {
 			continue
 		}
 		for _, m := range modesOf(fs) {
